@@ -1,5 +1,90 @@
-import Gobptree.Ops
-namespace Gobptree
-theorem C09_placeholder : True := trivial
-end Gobptree
-#print axioms Gobptree.C09_placeholder
+/-
+  C09 — operations leave no lock behind; a cursor holds one leaf until it ends.
+
+  Model: the small-step semantics lean/Gobptree/Conc.lean (threads parked at `Lock()`
+  calls; one step = run to the next park), tied to /repo by replaying every run of the
+  shadow copy (sources with only the `sync` import swapped) on the model and comparing
+  the complete lock/unlock event logs.  The theorems quantify over EVERY initial tree,
+  EVERY finite family of client programs and EVERY schedule (`Reachable`).
+
+  `dead = false` excludes configurations in which a thread panicked (a Go panic leaves
+  non-deferred locks held; absence of panics for single-threaded use is C01, for order ≥ 4).
+-/
+import Gobptree.Proofs.ConcReach
+
+namespace Gobptree.Conc
+open Gobptree
+
+variable {K V : Type}
+
+/-- **C09, bookkeeping invariant.** In every reachable configuration every thread holds
+    exactly (up to order) its open cursor's leaf plus the locks its park position
+    prescribes (`kontHeld`): the held set is a function of the program position alone. -/
+theorem C09_held_by_position (P : Params K) (tree : Tree K V) (progs : List (List (COp K V)))
+    (c : Config K V) (hr : Reachable (Config.init P tree progs) c) (hd : c.dead = false) :
+    ∀ th ∈ c.threads, List.Perm th.held (cursorLocks th.cursor ++ parkHeld th.park) :=
+  fun th hth => (reachable_ok _ c (init_ok P tree progs) hr hd th hth).1
+
+/-- **C09 (locks released).** A thread whose program has run to completion — every one
+    of its Insert/Update/Delete/Search calls has returned, on whatever path: root split
+    left or right, child split left or right, borrow, merge, absent key — holds nothing
+    but the leaf of a cursor it left open. -/
+theorem C09_locks_released (P : Params K) (tree : Tree K V) (progs : List (List (COp K V)))
+    (c : Config K V) (hr : Reachable (Config.init P tree progs) c) (hd : c.dead = false)
+    (th : Thread K V) (hth : th ∈ c.threads) (hfin : th.park = .finished) :
+    List.Perm th.held (cursorLocks th.cursor) := by
+  have := C09_held_by_position P tree progs c hr hd th hth
+  rw [hfin] at this
+  simpa [parkHeld] using this
+
+/-- **C09 (after `Scan` returned false / after `Close`).** Once the cursor is exhausted or
+    closed (or the thread never opened one) a finished thread holds no lock at all. -/
+theorem C09_nothing_after_close (P : Params K) (tree : Tree K V) (progs : List (List (COp K V)))
+    (c : Config K V) (hr : Reachable (Config.init P tree progs) c) (hd : c.dead = false)
+    (th : Thread K V) (hth : th ∈ c.threads) (hfin : th.park = .finished)
+    (hcur : th.cursor = none ∨ ∃ i, th.cursor = some (none, i)) : th.held = [] := by
+  have h := C09_locks_released P tree progs c hr hd th hth hfin
+  have : cursorLocks th.cursor = [] := by
+    rcases hcur with e | ⟨i, e⟩ <;> rw [e] <;> rfl
+  rw [this] at h
+  exact List.Perm.eq_nil h
+
+/-- **C09 (an open cursor holds exactly one leaf).** -/
+theorem C09_cursor_one_leaf (P : Params K) (tree : Tree K V) (progs : List (List (COp K V)))
+    (c : Config K V) (hr : Reachable (Config.init P tree progs) c) (hd : c.dead = false)
+    (th : Thread K V) (hth : th ∈ c.threads) (hfin : th.park = .finished)
+    (leaf : Nat) (i : Int) (hcur : th.cursor = some (some leaf, i)) : th.held = [.node leaf] := by
+  have h := C09_locks_released P tree progs c hr hd th hth hfin
+  rw [hcur] at h
+  exact List.perm_singleton.mp h
+
+/-- **C09 (between calls).** A thread resting between two calls (client `pause`) holds
+    exactly its open cursor's leaf, or nothing. -/
+theorem C09_between_calls (P : Params K) (tree : Tree K V) (progs : List (List (COp K V)))
+    (c : Config K V) (hr : Reachable (Config.init P tree progs) c) (hd : c.dead = false)
+    (th : Thread K V) (hth : th ∈ c.threads) (hp : th.park = .yielded .paused) :
+    List.Perm th.held (cursorLocks th.cursor) := by
+  have := C09_held_by_position P tree progs c hr hd th hth
+  rw [hp] at this
+  simpa [parkHeld, kontHeld] using this
+
+/-- non-vacuity: the initial configuration satisfies the invariant and is reachable -/
+example (P : Params K) (tree : Tree K V) (progs : List (List (COp K V))) :
+    Reachable (Config.init P tree progs) (Config.init P tree progs) ∧ (Config.init P tree progs).dead = false :=
+  ⟨.refl, rfl⟩
+
+/-- FULL statement of the remaining half of C09 ("afterwards every operation on any key
+    completes"), kept as a definition: it needs termination of every operation under a
+    fair schedule, i.e. deadlock freedom (C06). Not proved. -/
+def C09_then_completes_statement : Prop :=
+  ∀ (P : Params Nat) (tree : Tree Nat Nat) (progs : List (List (COp Nat Nat))) (c : Config Nat Nat),
+    Reachable (Config.init P tree progs) c → c.dead = false → c.unfinished = true →
+    c.enabledSet ≠ []
+
+end Gobptree.Conc
+
+#print axioms Gobptree.Conc.C09_held_by_position
+#print axioms Gobptree.Conc.C09_locks_released
+#print axioms Gobptree.Conc.C09_nothing_after_close
+#print axioms Gobptree.Conc.C09_cursor_one_leaf
+#print axioms Gobptree.Conc.C09_between_calls
